@@ -75,15 +75,17 @@ def tree_dir():
     return d
 
 
-def prune_cache(keep=3):
-    """Keep the `keep` most recently used trees."""
+def prune_cache(keep=4, min_age_s=5400):
+    """Keep the `keep` most recently used trees; never remove one used in the last 90 minutes
+    (another check may be building in it)."""
     if not os.path.isdir(BUILD):
         return
     ds = [os.path.join(BUILD, d) for d in os.listdir(BUILD)]
     ds = [d for d in ds if os.path.isdir(d)]
     ds.sort(key=lambda d: os.path.getmtime(d), reverse=True)
+    now = time.time()
     for d in ds[keep:]:
-        if os.path.basename(d) != tree_hash():
+        if os.path.basename(d) != tree_hash() and now - os.path.getmtime(d) > min_age_s:
             shutil.rmtree(d, ignore_errors=True)
 
 
